@@ -9,6 +9,9 @@ statement sequence of SFTPServerInterface.canonicalize --
     if sys.platform == "win32": out = out.replace("\\", "/")      (win32 only; not taken on POSIX)
     return out
 and that `os` / `sys` are the standard modules imported at module level and not re-bound.
+Also pinned: the `t == CMD_REALPATH` branch of SFTPServer._process in sftp_server.py is exactly
+    path = msg.get_text(); rpath = self.server.canonicalize(path); self._response(request_number, CMD_NAME, 1, rpath, "", SFTPAttributes())
+(no memo / shared state between requests or sessions), and self.server is assigned once.
 Emitted: G_SEP : Z -- the code point of the one-character separator literal prefixed to relative paths
 (the model's SLASH), and G_WIN32_BRANCH_ONLY : bool := true recording that the only other statement is the
 win32-guarded replacement.  posixpath.normpath itself is a library function: its Gallina model stays
@@ -93,12 +96,57 @@ def analyse(repo):
     return {"sep": ord(tr.seps[0])}
 
 
+EXPECTED_REALPATH = '''
+path = msg.get_text()
+rpath = self.server.canonicalize(path)
+self._response(request_number, CMD_NAME, 1, rpath, "", SFTPAttributes())
+'''
+
+
+def analyse_realpath(repo):
+    """The CMD_REALPATH branch of SFTPServer._process answers with the session's own interface's
+    canonicalize(path) and nothing else (no memo, no shared state)."""
+    tree = ast.parse(open(os.path.join(repo, "paramiko", "sftp_server.py")).read())
+    classes = [n for n in tree.body if isinstance(n, ast.ClassDef) and n.name == "SFTPServer"]
+    if len(classes) != 1:
+        raise RuntimeError("class SFTPServer not found exactly once in sftp_server.py")
+    fns = [n for n in classes[0].body if isinstance(n, ast.FunctionDef) and n.name == "_process"]
+    if len(fns) != 1:
+        raise RuntimeError("SFTPServer._process not found exactly once")
+    branches = []
+    for n in ast.walk(fns[0]):
+        if isinstance(n, ast.If) and isinstance(n.test, ast.Compare) and isinstance(n.test.left, ast.Name) \
+                and n.test.left.id == "t" and len(n.test.ops) == 1 and isinstance(n.test.ops[0], ast.Eq) \
+                and isinstance(n.test.comparators[0], ast.Name) and n.test.comparators[0].id == "CMD_REALPATH":
+            branches.append(n.body)
+    if len(branches) != 1:
+        raise RuntimeError("expected exactly one `t == CMD_REALPATH` branch in SFTPServer._process, found %d"
+                           % len(branches))
+    got = ast.dump(ast.Module(body=branches[0], type_ignores=[]), include_attributes=False)
+    want = ast.dump(ast.parse(EXPECTED_REALPATH), include_attributes=False)
+    if got != want:
+        i = 0
+        while i < min(len(got), len(want)) and got[i] == want[i]:
+            i += 1
+        raise RuntimeError("the CMD_REALPATH branch of SFTPServer._process has an unrecognised shape: "
+                           "...%s <<< found | expected >>> ...%s" % (got[max(0, i - 60):i + 120], want[max(0, i - 20):i + 100]))
+    # self.server is assigned once, in __init__, from the sftp_si class handed to this session
+    stores = [n for n in ast.walk(classes[0]) if isinstance(n, ast.Attribute) and isinstance(n.ctx, ast.Store)
+              and n.attr == "server" and isinstance(n.value, ast.Name) and n.value.id == "self"]
+    if len(stores) != 1:
+        raise RuntimeError("SFTPServer assigns self.server %d times (expected once, in __init__)" % len(stores))
+    return True
+
+
 def generate(repo):
+    analyse_realpath(repo)
     r = analyse(repo)
     text = ("(* GENERATED by gen/c34.py from paramiko/sftp_si.py -- do not edit. *)\n"
             "From Coq Require Import ZArith.\nOpen Scope Z_scope.\n\n"
             "(* the separator canonicalize prefixes to a relative path *)\n"
             "Definition G_SEP : Z := %d.\n"
             "(* canonicalize = isabs test, normpath on either branch, win32-only backslash replacement, return *)\n"
-            "Definition G_WIN32_BRANCH_ONLY : bool := true.\n" % r["sep"])
+            "Definition G_WIN32_BRANCH_ONLY : bool := true.\n"
+            "(* the CMD_REALPATH branch of SFTPServer._process replies self.server.canonicalize(path), nothing else *)\n"
+            "Definition G_REALPATH_STATELESS : bool := true.\n" % r["sep"])
     return {"C34_gen.v": text}
